@@ -849,56 +849,4 @@ Lemma union_pick_good (sel scope : N) st1 d1 : forall opts k,
          end) opts k).
 Proof.
   induction opts as [|o os IH]; intros k H.
-  { destruct k; cbn; (split; [lia|discriminate]). }
-  inversion H as [|? ? Ho Hos]; subst.
-  cbn [maxP maxF fold_right]. fold (maxP os) (maxF os).
-  destruct k as [|k].
-  - destruct (ti_fixed (info o) && negb (ti_size (info o) =? scope - 1)).
-    { cbn. split; [lia|discriminate]. }
-    destruct (Ho st1 d1) as [[G1 G2] _].
-    eapply (okres_mono (N.max (perbyte o) (maxP os)) _ _ _ st1 d1); [apply N.le_refl| |].
-    2:{ assert (M1 : perbyte o <= N.max (perbyte o) (maxP os)) by lia.
-        pose proof (N.mul_le_mono_r _ _ (dr_scope d1) M1).
-        pose proof (N.mul_le_mono_r _ _ (slen st1) M1).
-        destruct (view_deser_a zh o st1 d1) as [[[c st2]| |] c1] eqn:Hd; cbn [fst snd] in G1, G2;
-          simp_abind.
-        - destruct (G2 _ _ eq_refl) as [G2a G2b].
-          assert (exists x, slen st1 = slen st2 + x) as [x Hx] by (exists (slen st1 - slen st2); lia).
-          split; cbn [fst snd].
-          + instantiate (1 := foot o + (c_leaf + c_pair + c_view)). lia.
-          + intros n st' HH; injection HH as <- <-. split; [lia|].
-            rewrite Hx in *. rewrite N.mul_add_distr_l in *.
-            pose proof (N.mul_le_mono_r _ _ x M1). lia.
-        - split; cbn [fst snd]; [lia|discriminate].
-        - split; cbn [fst snd]; [lia|discriminate]. }
-    lia.
-  - eapply okres_mono; [| |apply IH, Hos]; lia.
-Qed.
-
-Lemma tinv_union none opts : Forall tinv opts -> tinv (TUnion none opts).
-Proof.
-  intros IH st d. rewrite union_not_fixed. cbn [view_deser_a perbyte foot].
-  fold (maxP opts) (maxF opts).
-  destruct (dr_scope d =? 0); [fin|].
-  dres; [|fin..]. rename n into sel, r into st1, d0 into d1.
-  dif; [fin|]. dif; [dif; [fin|]; simp_abind; fin|].
-  pose proof (union_pick_good sel (dr_scope d) st1 d1 opts
-                (nat_of (if none then sel - 1 else sel)) IH) as [G1 G2].
-  facts.
-  mono (maxP opts) (dr_scope d1) (dr_scope d). mono (maxP opts) (slen st1) (slen st).
-  match goal with |- context [okres _ _ st d ?r] => set (res := r) in * end.
-  split; [split|intros HH; discriminate HH].
-  - consts. lia.
-  - intros n st' HH. destruct (G2 _ _ HH) as [G2a G2b]. consts. lia.
-Qed.
-
-(** * 5. the bound for every type *)
-Theorem tinv_all : forall t, tinv t.
-Proof.
-  induction t using ty_ind'.
-  - apply tinv_uint. - apply tinv_bool. - apply tinv_bytes. - apply tinv_root.
-  - apply tinv_bitvector. - apply tinv_bitlist.
-  - now apply tinv_vector. - now apply tinv_list.
-  - now apply tinv_container. - now apply tinv_union.
-Qed.
-End Bound.
+Show. 
